@@ -5,7 +5,7 @@ and against the RFC transcription (Spec/Rfc4880_keys.v), with SHA-1 answered by 
 Two comparisons throughout: (a) implementation vs model on the same fields, (b) the RFC 4880 12.2 law computed
 directly on what the implementation exports (independent Python splitter + hashlib), so a change in glue the model
 does not cover is still seen."""
-import copy, hashlib, inspect, json, os, subprocess, sys, warnings
+import calendar, copy, hashlib, inspect, json, os, subprocess, sys, warnings
 from datetime import datetime, timedelta, timezone
 
 from .common import Driver, hx, unhx, hn, unhn, outcome, load_repo, REPO
@@ -732,6 +732,25 @@ def suite_fresh(ctx, d, pgpy, specs):
         check_packet(ctx, d, 'fresh-keys', k._key, {'op': 'fresh', 'alg': alg, 'size': str(size)})
         if str(k.pubkey.fingerprint) != str(k.fingerprint):
             ctx.fail('fresh-keys', 'public twin has another fingerprint', {'op': 'fresh', 'alg': alg, 'pkt': bytes(k._key.__bytearray__()).hex()})
+        # the same instant given as an offset-aware datetime (+05:30 / -08:00): copies, twins and copies of copies keep the fingerprint
+        for off in (330, -480):
+            ts = int(calendar.timegm(created.utctimetuple()))
+            if not (86400 <= ts < 2 ** 32 - 86400): continue
+            local = datetime.fromtimestamp(ts, timezone(timedelta(minutes=off)))
+            with warnings.catch_warnings():
+                warnings.simplefilter('ignore')
+                o2 = outcome(lambda: pgpy.PGPKey.new(getattr(A, alg), getattr(C, size) if isinstance(size, str) else size, created=local))
+            if o2[0] != 'ok': continue
+            k2 = o2[1]
+            (tg, bd), = split_packets(bytes(k2._key.pubkey().__bytearray__()))
+            want = rfc_fp(bd)
+            forms = outcome(lambda: {'key': str(k2.fingerprint), 'copy': str(copy.copy(k2).fingerprint), 'twin': str(k2.pubkey.fingerprint),
+                                     'copy of twin': str(copy.copy(k2.pubkey).fingerprint), 'copy of copy': str(copy.copy(copy.copy(k2)).fingerprint),
+                                     're-import of copy': str(pgpy.PGPKey.from_blob(bytes(copy.copy(k2)))[0].fingerprint)})
+            ctx.case('fresh-keys', (alg, str(size), ts, off), sample={'alg': alg, 'created': ts, 'utc_offset_minutes': off})
+            if forms[0] != 'ok' or any(v.replace(' ', '').lower() != want for v in forms[1].values()) or bd[1:5] != ts.to_bytes(4, 'big'):
+                ctx.fail('fresh-keys', 'fingerprint / creation time of a key created with an offset-aware datetime changes under copy / twin',
+                         {'op': 'fresh-tz', 'alg': alg, 'size': str(size), 'created': ts, 'off': off, 'rfc': want, 'impl': repr(forms)[:400]})
 
 
 def suite_rsa_ids(ctx, d, pgpy, names):
